@@ -224,7 +224,7 @@ class Folder:
         if isinstance(e, ast.Attribute):
             if d is not None and d.split(".")[0] in self.env:
                 base = self.fold(e.value)
-                if isinstance(base, Abstract) and hasattr(base, e.attr) and not e.attr.startswith("__"):
+                if isinstance(base, Abstract) and (not e.attr.startswith("__") or e.attr == "__name__") and hasattr(base, e.attr):
                     return getattr(base, e.attr)
                 if type(base).__name__ == "AObj":
                     from .absint import aobj_member
@@ -570,7 +570,7 @@ class Folder:
                 raise Unfoldable(unparse(e))
             if recv is not NotImplemented and not e.keywords:
                 m = e.func.attr
-                if isinstance(recv, (frozenset, set)) and m in ("union", "intersection", "difference", "issubset", "issuperset", "isdisjoint", "copy"):
+                if isinstance(recv, (frozenset, set)) and m in ("union", "intersection", "difference", "symmetric_difference", "issubset", "issuperset", "isdisjoint", "copy"):
                     return getattr(frozenset(recv), m)(*[self._iter_arg(a) for a in args])
                 if isinstance(recv, (list, tuple)) and m in ("index", "count", "copy"):
                     return getattr(list(recv), m)(*[self.fold(a) for a in args])
@@ -667,6 +667,19 @@ class Folder:
         if name in ("int", "bool"):
             v = self.fold(args[0])
             if name == "int":
+                if (e.keywords or len(args) > 1) and isinstance(v, str):
+                    # int(text, base): exact decoding of a literal
+                    base = self.fold(args[1]) if len(args) == 2 else None
+                    for k in e.keywords:
+                        if k.arg == "base":
+                            base = self.fold(k.value)
+                    if isinstance(base, int) and not isinstance(base, bool):
+                        try:
+                            return int(v, base)
+                        except ValueError:
+                            from .absint import Raised
+
+                            raise Raised("ValueError", e)
                 if e.keywords or len(args) > 1:
                     raise Unfoldable(unparse(e))
                 if isinstance(v, (int, Fraction)) and not isinstance(v, bool):
@@ -748,6 +761,9 @@ class Folder:
             if isinstance(f, (_Lambda, _LocalFn)):
                 res = [f.call(self, [v]) for v in vals]
                 return res if name == "map" else [v for v, k in zip(vals, res) if k]
+            if callable(f) and isinstance(f, Abstract):
+                res = [call_value(self, f, [v]) for v in vals]  # a rule-modelled callable
+                return res if name == "map" else [v for v, k in zip(vals, res) if k]
             raise Unfoldable(unparse(e))
         if name in ("functools.reduce", "reduce") and len(args) in (2, 3):
             f = self.fold(args[0])
@@ -794,7 +810,7 @@ class Folder:
             v = self.fold(args[0])
             kn = [dotted(k) for k in (args[1].elts if isinstance(args[1], ast.Tuple) else [args[1]])]
             pyk = {"bytes": bytes, "bytearray": bytearray, "int": int, "bool": bool, "str": str, "float": float, "fractions.Fraction": Fraction, "Fraction": Fraction, "set": (set, frozenset), "frozenset": frozenset, "list": list, "tuple": tuple, "dict": dict}
-            if all(k in pyk for k in kn) and not isinstance(v, Sym):
+            if all(k in pyk for k in kn) and not isinstance(v, Sym) and not isinstance(getattr(v, "_isa_", None), (set, frozenset)):
                 return any(isinstance(v, pyk[k]) for k in kn)  # type: ignore
             if not isinstance(v, Abstract) and (v is None or isinstance(v, (int, str, float, bool, Fraction, list, tuple, dict, set, frozenset, bytes))):
                 # a plain value is an instance of the builtin classes listed, never of a class of the repository
@@ -869,6 +885,11 @@ class Folder:
                         return sub.fold(ex)
         if name == "ValueRange" or (name or "").endswith(".ValueRange"):
             raise Unfoldable(unparse(e))
+        if isinstance(e.func, (ast.Call, ast.Subscript, ast.IfExp)):
+            # the callee is itself computed: getattr(x, name)(...), table[key](...), (f if c else g)(...)
+            fv = self.fold(e.func)
+            if isinstance(fv, (_Lambda, _LocalFn, _Partial)) or type(fv).__name__ == "_BoundMethod" or (isinstance(fv, Abstract) and callable(fv)):
+                return call_value(self, fv, [self.fold(a) for a in args], {k.arg: self.fold(k.value) for k in e.keywords if k.arg})
         raise Unfoldable("call " + unparse(e))
 
 
